@@ -27,7 +27,7 @@ STUBS = [
     'apps are built concretely (outside tracing) once per worker; requests are driven by the harness WSGI/ASGI drivers',
 ]
 OUTSIDE = ['origins outside the menu', 'static-route targets (file I/O)', 'more than one additional middleware']
-BUDGET = {'quick': 300, 'thorough': 1800}
+BUDGET = {'quick': 300, 'thorough': 900}
 
 ORIG = ['https://a.b', 'https://b', 'https://A.b', 'https://a', 'null', '*', 'https', 'https://a.b.c']
 
